@@ -4,7 +4,7 @@ import struct, zlib
 import etf
 
 ATOM_POOL = [b"", b"a", b"ok", b"error", b"true", b"nil", b"node@host", "é".encode(), "ключ".encode(), "😀".encode(),
-             b"x" * 255, b"y" * 256, "é".encode() * 127 + b"z", "é".encode() * 128, "é".encode() * 200]
+             b"a" + "é".encode() * 40, "日本語".encode() * 30, b"ab" + "😀".encode() * 20, b"x" * 255, b"y" * 256, "é".encode() * 127 + b"z", "é".encode() * 128, "é".encode() * 200]
 INT_POOL = [0, 1, 255, 256, -1, -255, -256, 2**31 - 1, 2**31, -2**31, -2**31 - 1, 2**32, 2**32 + 2, 2**32 + 256, 2**53 - 1, 2**53, 2**53 + 1,
             2**63 - 1, -2**63, -2**63 + 1, 65535, 65536, 10**18]
 BIG_POOL = [2**63, 2**64 - 1, 2**64, 2**64 + 1, -2**63 - 1, -2**64, 10**20, -10**20, 2**(8 * 255) - 1, 2**(8 * 255), 2**(8 * 256) - 1, 2**(8 * 300) - 1,
@@ -31,7 +31,7 @@ def int_ast(n):
 def gen_atom(rng, small=True):
     r = rng.random()
     if r < 0.7:
-        return rng.choice(ATOM_POOL[:10])
+        return rng.choice(ATOM_POOL[:13])
     if r < 0.95 or small:
         return rng.choice(ATOM_POOL)
     return rng.choice([b"q" * 65535, b"w" * 300, "я".encode() * 1000])
@@ -158,6 +158,8 @@ def boundary_terms():
     ts.append(("m", [(("i", 1), ("a", b"x")), (("f", fbits(1.5)), ("a", b"y")), (("a", b"k"), ("l", [])), (("t", []), ("n",)), (("b", b"k"), ("i", 2))]))
     ts.append(("m", [(int_ast(2**32 + 2), ("a", b"x")), (int_ast(2**32 + 256), ("a", b"y"))]))   # recorded C01 finding
     ts.append(("m", [(("i", 1), ("i", 10)), (("f", fbits(1.0)), ("i", 20))]))
+    ts.append(("m", [(("L", [], ("a", b"a")), ("i", 1)), (("t", []), ("i", 2))]))                       # recorded: improper-empty key
+    ts.append(("m", [(("L", [("i", 1)], ("l", [])), ("i", 1)), (("L", [("i", 1)], ("i", 2)), ("i", 2))]))  # recorded: list vs improper keys
     for nids in (0, 1, 2, 3, 5, 65535):
         ts.append(("r", b"n@h", 3, [(7 * k) % 2**32 for k in range(nids)], None))
     ts.append(("r", b"n@h", 3, [0] * 65536, None))
